@@ -19,6 +19,7 @@ def dispatch (j : Json) : Json :=
   match cmd with
   | "cert" => if fl then cmdCert (α := Float) j else cmdCert (α := Rat) j
   | "run" => if fl then cmdRun (α := Float) j else cmdRun (α := Rat) j
+  | "relax" => if fl then cmdRelax (α := Float) j else cmdRelax (α := Rat) j   -- damped iteration: does a steady state exist? (C03)
   | "hist" => cmdHist j            -- edit / configuration / analysis histories (C14–C17)
   | "doc" | "toml" => cmdDoc j     -- save / from_file documents, TOML component files (C12, C13)
   | "diag" => cmdDiag j            -- diagram structure (C19)
